@@ -259,7 +259,32 @@ def sl(x):
     return None if x == 99 else x
 
 
+_spelling = [0]
+
+
+class OpTimeout(BaseException):
+    pass
+
+
+def _op_alarm(signum, frame):
+    raise OpTimeout()
+
+
 def execute(env, root_t, mine, other, op):
+    """one API operation under a 5 s watchdog (an operation that does not
+    return is reported as outcome 'other:timeout')"""
+    import signal
+    signal.signal(signal.SIGALRM, _op_alarm)
+    signal.alarm(5)
+    try:
+        return _execute(env, root_t, mine, other, op)
+    except OpTimeout:
+        return "other:timeout: the operation did not return within 5 s"
+    finally:
+        signal.alarm(0)
+
+
+def _execute(env, root_t, mine, other, op):
     """Apply op to message `mine`.  Returns outcome class."""
     name = op["op"]
     try:
@@ -329,10 +354,15 @@ def execute(env, root_t, mine, other, op):
         elif name == "add":
             node.add()
         elif name == "extendself":
-            node.extend(list(node))
+            # both spellings: the array itself and a list of its elements
+            _spelling[0] += 1
+            node.extend(node if _spelling[0] % 2 else list(node))
         elif name == "extendother":
             onode, _ = navigate(env, other, root_t, op["path"])
-            node.extend(list(onode))
+            _spelling[0] += 1
+            node.extend(onode if _spelling[0] % 2 else list(onode))
+        elif name == "extendbad":
+            node.extend(([node[0]] if len(node) else []) + [5])
         else:
             raise RuntimeError("unknown op %s" % name)
         return "ok"
